@@ -302,6 +302,25 @@ def R4_formula(ctx, rid="C07.R4"):
                 cb = F.need(t[2][2][1])
                 crt = nosite(deep_strip(Terms(cb).return_term()))
                 ok = crt[0] == "call" and crt[1] == mv.path and crt[2][0] == ("arg", 3) and Arith(F, {("arg", 2): "acc"}).ev(crt[2][1]).equals(Ratio(Poly.sym("acc")))
+            if not ok and mv.natural_loops():
+                # the same fold written as a loop: `let mut cur = x; for f in rates.iter() { cur = f.map_value(cur) }; Cost::new(cur)`
+                for acc in accumulations(mv):
+                    if acc.get("form") != "loop" or acc["elem"] is None:
+                        continue
+                    src_ok = clean(acc["src"]) in (("call", "std::slice::<impl [T]>::iter", (("field", ("variant", ("arg", 1), "Combined"), "0"),)), ("call", "<I as std::iter::IntoIterator>::into_iter", (("call", "std::slice::<impl [T]>::iter", (("field", ("variant", ("arg", 1), "Combined"), "0"),)),)))
+                    calls_ = [q for q in subterms(clean(acc["step"])) if q[0] == "call" and q[1] == mv.path]
+                    A_ = Arith(F, {acc["acc"]: "acc"})
+                    step_ok = len(calls_) == 1 and calls_[0][2][0] == clean(acc["elem"]) and A_.ev(calls_[0][2][1]).equals(Ratio(Poly.sym("acc")))
+                    if step_ok:
+                        A2_ = Arith(F, {calls_[0]: "m"})
+                        step_ok = A2_.ev(clean(acc["step"])).equals(Ratio(Poly.sym("m")))
+                    seed_ok = Arith(F, {("arg", 2): "x", x: "x"}).ev(clean(acc["seed"])).equals(Ratio(Poly.sym("x")))
+                    # what is returned is the accumulator (as a Cost), on the path that leaves the loop by exhaustion
+                    ret_ok = False
+                    for rr in iteration_table(mv, innermost_loop(mv, mv.natural_loops()[0][0])[0] if False else mv.natural_loops()[0][0]):
+                        if rr.kind == "return" and rr.ret is not None:
+                            ret_ok = Arith(F, {acc["acc"]: "acc", ("field", acc["acc"], "0"): "acc"}).ev(clean(rr.ret)).equals(Ratio(Poly.sym("acc")))
+                    ok = src_ok and step_ok and seed_ok and ret_ok
             ctx.check(ok, "map_value:Combined", "Combined is not a left fold of the inner rates starting from x: %s" % short(t)[:160], mv.where())
         else:
             ctx.bad("map_value:%s" % (v,), "unknown VehicleCostRate variant", mv.where())
